@@ -60,27 +60,27 @@ example : vmUn (fun _ _ => 0) .OP_NOT UNDEF = UNDEF := by decide
     undefined all the same because no memory block of a sane address space contains the offset
     `(size_t) YR_UNDEFINED` = 0xFFFABADAFABADAFF (blocks end at or below 2^63) — proved against the range test
     REGENERATED from the `function_read` macro. -/
-theorem undef_propagation_readers (blocks : List (Nat × Bytes)) (op : UnOp) (hr : isReader op = true)
+theorem undef_propagation_readers (fo : FloatOps) (blocks : List (Nat × Bytes)) (op : UnOp) (hr : isReader op = true)
     (hb : ∀ b ∈ blocks, b.1 + b.2.length ≤ 9223372036854775808) :
-    vmUn (prim blocks) op UNDEF = UNDEF := by
+    vmUn (prim fo blocks) op UNDEF = UNDEF := by
   have key : ∀ sz sg be, readPrim blocks sz sg be UNDEF = UNDEF := by
     intro sz sg be
     simp only [readPrim, undef_offset, readBlocks_sentinel blocks sz hb]
   cases op <;> simp [isReader] at hr <;> simp only [vmUn]
-  · rw [prim_reader blocks _ 2 true false _ (by decide), key]
-  · rw [prim_reader blocks _ 2 true true _ (by decide), key]
-  · rw [prim_reader blocks _ 4 true false _ (by decide), key]
-  · rw [prim_reader blocks _ 4 true true _ (by decide), key]
-  · rw [prim_reader blocks _ 1 true false _ (by decide), key]
-  · rw [prim_reader blocks _ 1 true true _ (by decide), key]
-  · rw [prim_reader blocks _ 2 false false _ (by decide), key]
-  · rw [prim_reader blocks _ 2 false true _ (by decide), key]
-  · rw [prim_reader blocks _ 4 false false _ (by decide), key]
-  · rw [prim_reader blocks _ 4 false true _ (by decide), key]
-  · rw [prim_reader blocks _ 1 false false _ (by decide), key]
-  · rw [prim_reader blocks _ 1 false true _ (by decide), key]
+  · rw [prim_reader (fo := fo) blocks _ 2 true false _ (by decide), key]
+  · rw [prim_reader (fo := fo) blocks _ 2 true true _ (by decide), key]
+  · rw [prim_reader (fo := fo) blocks _ 4 true false _ (by decide), key]
+  · rw [prim_reader (fo := fo) blocks _ 4 true true _ (by decide), key]
+  · rw [prim_reader (fo := fo) blocks _ 1 true false _ (by decide), key]
+  · rw [prim_reader (fo := fo) blocks _ 1 true true _ (by decide), key]
+  · rw [prim_reader (fo := fo) blocks _ 2 false false _ (by decide), key]
+  · rw [prim_reader (fo := fo) blocks _ 2 false true _ (by decide), key]
+  · rw [prim_reader (fo := fo) blocks _ 4 false false _ (by decide), key]
+  · rw [prim_reader (fo := fo) blocks _ 4 false true _ (by decide), key]
+  · rw [prim_reader (fo := fo) blocks _ 1 false false _ (by decide), key]
+  · rw [prim_reader (fo := fo) blocks _ 1 false true _ (by decide), key]
 
-example : vmUn (prim [(0, [1, 2, 3, 4])]) .OP_UINT16 1 = 770 ∧ vmUn (prim [(0, [1, 2, 3, 4])]) .OP_UINT16 3 = UNDEF := by decide
+example : vmUn (prim default [(0, [1, 2, 3, 4])]) .OP_UINT16 1 = 770 ∧ vmUn (prim default [(0, [1, 2, 3, 4])]) .OP_UINT16 3 = UNDEF := by decide
 
 /-- The 12 instantiations of `function_read` apply the byte-order conversion their name announces. -/
 theorem reader_table_consistent :
@@ -114,7 +114,7 @@ theorem and_or_undefined (env : Env) (l : LEnv) (a b : Expr) (ha : eval env l a 
     eval env l (.or a b) = .bool (asBool (eval env l b)) ∧ eval env l (.or b a) = .bool (asBool (eval env l b)) := by
   simp [eval, ha, vAnd, vOr, asBool, truthy]
 
-example : eval ⟨[], [], 0, [], [], []⟩ {} (.or (.undefOf .i) .tt) = .bool true := by
+example : eval ⟨[], [], 0, [], [], [], default⟩ {} (.or (.undefOf .i) .tt) = .bool true := by
   simp [eval, vOr, asBool, truthy]
 
 /-- `not undefined` is undefined; `defined` never is. -/
@@ -183,7 +183,7 @@ theorem of_quantifiers (env : Env) (l : LEnv) (qe : Expr) (set : List Nat) :
   · intro p
     simp [eval, pctHolds]
 
-example : eval ⟨[[(0, 2)], []], [], 2, [], [], []⟩ {} (.ofStr .any (.int 0) [0, 1]) = .bool true := by
+example : eval ⟨[[(0, 2)], []], [], 2, [], [], [], default⟩ {} (.ofStr .any (.int 0) [0, 1]) = .bool true := by
   simp [eval, quantOf, quantHolds, strFound]
 
 /-- `for Q i in (a..b) : (body)` over a non-empty range is bounded quantification of the body over a ≤ i ≤ b;
@@ -413,9 +413,9 @@ example : setDenotes ["$a", "$ab", "$a1"] [.exact "$a"] = [0] ∧ setDenotes ["$
 
 /-! ## (h) rules switched off through the API (yr_rule_disable) -/
 
-private theorem evalRulesD_prefix (blocks : List (Nat × Bytes)) (filesize : Int) (ext : List (String × Val)) (dis : List Nat) :
+private theorem evalRulesD_prefix (blocks : List (Nat × Bytes)) (filesize : Int) (ext : List (String × Val)) (dis : List Nat) (fo : FloatOps) :
     ∀ (rs : List Rule) (acc : List Bool) (k : Nat), k < acc.length →
-      (evalRulesD blocks filesize ext dis rs acc).getD k false = acc.getD k false := by
+      (evalRulesD blocks filesize ext dis fo rs acc).getD k false = acc.getD k false := by
   intro rs
   induction rs with
   | nil => intro acc k _; rfl
@@ -426,9 +426,9 @@ private theorem evalRulesD_prefix (blocks : List (Nat × Bytes)) (filesize : Int
     simp only [List.getD_eq_getElem?_getD]
     rw [List.getElem?_append_left hk]
 
-private theorem disabled_rule_never_matches_aux (blocks : List (Nat × Bytes)) (filesize : Int) (ext : List (String × Val)) (dis : List Nat) :
+private theorem disabled_rule_never_matches_aux (blocks : List (Nat × Bytes)) (filesize : Int) (ext : List (String × Val)) (dis : List Nat) (fo : FloatOps) :
     ∀ (rs : List Rule) (acc : List Bool) (k : Nat), dis.contains k = true → acc.length ≤ k →
-      (evalRulesD blocks filesize ext dis rs acc).getD k false = false := by
+      (evalRulesD blocks filesize ext dis fo rs acc).getD k false = false := by
   intro rs
   induction rs with
   | nil =>
@@ -440,19 +440,19 @@ private theorem disabled_rule_never_matches_aux (blocks : List (Nat × Bytes)) (
     simp only [evalRulesD]
     by_cases he : k = acc.length
     · subst he
-      rw [evalRulesD_prefix _ _ _ _ rs _ acc.length (by simp)]
+      rw [evalRulesD_prefix _ _ _ _ _ rs _ acc.length (by simp)]
       have hm : acc.length ∈ dis := by simpa using hd
       simp [hm]
     · exact ih _ k hd (by simp; omega)
 /-- a disabled rule never matches, whatever its condition -/
 theorem disabled_rule_never_matches (blocks : List (Nat × Bytes)) (filesize : Int) (ext : List (String × Val)) (dis : List Nat)
-    (rs : List Rule) (k : Nat) (hd : dis.contains k = true) :
-    (evalRulesD blocks filesize ext dis rs []).getD k false = false :=
-  disabled_rule_never_matches_aux blocks filesize ext dis rs [] k hd (Nat.zero_le _)
+    (fo : FloatOps) (rs : List Rule) (k : Nat) (hd : dis.contains k = true) :
+    (evalRulesD blocks filesize ext dis fo rs []).getD k false = false :=
+  disabled_rule_never_matches_aux blocks filesize ext dis fo rs [] k hd (Nat.zero_le _)
 
 /-- what the other rules see of a disabled rule: a direct reference is undefined (docs/capi.rst); inside a rule set it
     counts as not matching — `all of (r)` is false, `none of (r)` true, `N of (..)` / `P% of (..)` count the others — and
-    with no rule disabled `evalRulesD` is `evalRules` -/
+    with no rule disabled (and the placeholder double operations `evalRules` is defined with) `evalRulesD` is `evalRules` -/
 theorem disabled_rule_semantics (env : Env) (l : LEnv) (k : Nat) (hd : env.disabled.contains k = true) :
     eval env l (.ruleRef k) = .undef ∧ env.ruleMatched k = false ∧
     eval env l (.ofRules .all (.int 0) [k]) = .bool false ∧ eval env l (.ofRules .none (.int 0) [k]) = .bool true ∧
@@ -465,7 +465,8 @@ theorem disabled_rule_semantics (env : Env) (l : LEnv) (k : Nat) (hd : env.disab
   · intro set; simp [List.countP_cons, hm]
 
 theorem evalRulesD_nil_is_evalRules (blocks : List (Nat × Bytes)) (filesize : Int) (ext : List (String × Val)) :
-    ∀ (rs : List Rule) (acc : List Bool), evalRulesD blocks filesize ext [] rs acc = evalRules blocks filesize ext rs acc := by
+    ∀ (rs : List Rule) (acc : List Bool),
+      evalRulesD blocks filesize ext [] FloatOps.trivial rs acc = evalRules blocks filesize ext rs acc := by
   intro rs
   induction rs with
   | nil => intro acc; rfl
@@ -517,7 +518,7 @@ theorem compile_correct_partial (env : Env) (henv : EnvOk env) (cond : Expr)
   rw [← tw_truth htw]
 
 /-- non-vacuity (loop-free): a string query, a comparison and a short-circuit `and` -/
-example : let env : Env := ⟨[[(0, 2), (5, 2)]], [(0, [97, 98, 0, 0, 0, 97, 98])], 7, [], [], []⟩
+example : let env : Env := ⟨[[(0, 2), (5, 2)]], [(0, [97, 98, 0, 0, 0, 97, 98])], 7, [], [], [], default⟩
     let cond := Expr.and (.found (.id 0)) (.cmp .lt (.count (.id 0)) (.int 3))
     EnvOk env ∧ WF env (ctxOfEnv env) {} cond ∧ ruleVerdict env cond = true := by
   refine ⟨?_, ?_, ?_⟩
@@ -525,12 +526,12 @@ example : let env : Env := ⟨[[(0, 2), (5, 2)]], [(0, [97, 98, 0, 0, 0, 97, 98]
     simp at hb
     subst hb
     decide
-  · simp [WF, SRefOk, tyOf, UNDEF]
+  · simp [WF, promoOk, SRefOk, tyOf, UNDEF]
   · simp [ruleVerdict, eval, Env.matchesOf, vCmp, cmpInt, vAnd, asBool, truthy]
 
 /-- non-vacuity (nested loops): `for any i in (2..2) : (for all of ($a,$b) : (@[i] == 5 or not $))` on a buffer where
     `$a` matches at 0 and 5 and `$b` does not match -/
-example : let env : Env := ⟨[[(0, 2), (5, 2)], []], [(0, [97, 98, 0, 0, 0, 97, 98])], 7, [], [], []⟩
+example : let env : Env := ⟨[[(0, 2), (5, 2)], []], [(0, [97, 98, 0, 0, 0, 97, 98])], 7, [], [], [], default⟩
     -- for any i in (2..2) : ( for all of ($a, $b) : ( @[i] == 5 or not $ ) )
     let cond := Expr.forRange .any (.int 0) (.int 2) (.int 2)
       (.forOf .all (.int 0) [0, 1] (.or (.cmp .eq (.offset .cur (.var 0)) (.int 5)) (.not (.found .cur))))
@@ -540,14 +541,14 @@ example : let env : Env := ⟨[[(0, 2), (5, 2)], []], [(0, [97, 98, 0, 0, 0, 97,
     simp at hb
     subst hb
     decide
-  · simp [WF, SRefOk, tyOf, UNDEF, INT64_MIN, INT64_MAX, intRange, eval, ctxOfEnv, ValOk, vCmp, vOffset, nth,
+  · simp [WF, promoOk, SRefOk, tyOf, UNDEF, INT64_MIN, INT64_MAX, intRange, eval, ctxOfEnv, ValOk, vCmp, vOffset, nth,
       Env.matchesOf, vOr, vNot, loopHolds, quantOf, quantHolds, cmpInt]
   · simp [ruleVerdict, eval, Env.matchesOf, vCmp, cmpInt, vOr, vNot, asBool, truthy, intRange, loopHolds, quantOf, quantHolds,
       countTrue, vOffset, nth]
 
 /-- non-vacuity (integer-valued loop body, the situation of the repaired finding F43):
     `for all i in (1..1) : (#a)` with three matches of `$a` — the body's value 3 counts once -/
-example : let env : Env := ⟨[[(0, 2), (2, 2), (6, 2)]], [(0, [97, 98, 97, 98, 0, 0, 97, 98])], 8, [], [], []⟩
+example : let env : Env := ⟨[[(0, 2), (2, 2), (6, 2)]], [(0, [97, 98, 97, 98, 0, 0, 97, 98])], 8, [], [], [], default⟩
     let cond := Expr.forRange .all (.int 0) (.int 1) (.int 1) (.count (.id 0))
     EnvOk env ∧ WF env (ctxOfEnv env) {} cond ∧ ruleVerdict env cond = true := by
   refine ⟨?_, ?_, ?_⟩
@@ -555,23 +556,23 @@ example : let env : Env := ⟨[[(0, 2), (2, 2), (6, 2)]], [(0, [97, 98, 97, 98, 
     simp at hb
     subst hb
     decide
-  · simp [WF, SRefOk, tyOf, UNDEF, INT64_MIN, INT64_MAX, intRange, eval, ctxOfEnv]
+  · simp [WF, promoOk, SRefOk, tyOf, UNDEF, INT64_MIN, INT64_MAX, intRange, eval, ctxOfEnv]
   · simp [ruleVerdict, eval, Env.matchesOf, asBool, truthy, intRange, loopHolds, quantOf, quantHolds, countTrue]
 
 /-- non-vacuity (range ending at INT64_MAX, the situation of the repaired finding F45):
     `for all i in (9223372036854775807..9223372036854775807) : (i > 0)` is true -/
-example : let env : Env := ⟨[], [], 0, [], [], []⟩
+example : let env : Env := ⟨[], [], 0, [], [], [], default⟩
     let cond := Expr.forRange .all (.int 0) (.int 9223372036854775807) (.int 9223372036854775807)
       (.cmp .gt (.var 0) (.int 0))
     EnvOk env ∧ WF env (ctxOfEnv env) {} cond ∧ ruleVerdict env cond = true := by
   refine ⟨?_, ?_, ?_⟩
   · intro b hb
     simp at hb
-  · simp [WF, tyOf, UNDEF, INT64_MIN, INT64_MAX, intRange, eval, ctxOfEnv, ValOk]
+  · simp [WF, promoOk, tyOf, UNDEF, INT64_MIN, INT64_MAX, intRange, eval, ctxOfEnv, ValOk]
   · simp [ruleVerdict, eval, asBool, truthy, intRange, loopHolds, quantOf, quantHolds, countTrue, vCmp, cmpInt]
 
 /-- non-vacuity (`P% of`, inside compile_correct since the repair of F44): `50% of ($a, $b)` with only `$a` found -/
-example : let env : Env := ⟨[[(0, 2)], []], [(0, [97, 98])], 2, [], [], []⟩
+example : let env : Env := ⟨[[(0, 2)], []], [(0, [97, 98])], 2, [], [], [], default⟩
     let cond := Expr.pctStr (.int 50) [0, 1]
     EnvOk env ∧ WF env (ctxOfEnv env) {} cond ∧ ruleVerdict env cond = true := by
   refine ⟨?_, ?_, ?_⟩
@@ -579,12 +580,12 @@ example : let env : Env := ⟨[[(0, 2)], []], [(0, [97, 98])], 2, [], [], []⟩
     simp at hb
     subst hb
     decide
-  · simp [WF, tyOf, UNDEF, INT64_MIN, INT64_MAX]
+  · simp [WF, promoOk, tyOf, UNDEF, INT64_MIN, INT64_MAX]
   · simp [ruleVerdict, eval, pctHolds, asBool, truthy, strFound, Env.matchesOf]
 
 /-- non-vacuity (a disabled rule inside a rule set, the situation of the repaired finding F68): rule 0 would match but is
     disabled; `all of (r0)` compiles to `PUSH_U (all); PUSH_U (end marker); PUSH_RULE 0; PUSH 0; OR; OF` and is false, a direct reference is undefined -/
-example : let env : Env := ⟨[], [], 0, [], [true], [0]⟩
+example : let env : Env := ⟨[], [], 0, [], [true], [0], default⟩
     let cond := Expr.ofRules .all (.int 0) [0]
     EnvOk env ∧ WF env (ctxOfEnv env) {} cond ∧ ruleVerdict env cond = false ∧ eval env {} (.ruleRef 0) = .undef ∧
     compile (ctxOfEnv env) cond = [.pushU, .pushU, .pushRule 0, .push 0, .bin .OP_OR, .of_ true] := by
